@@ -146,6 +146,9 @@ def run(prog, rep):
     check_calendar(prog, rep)
     rep.rule('R15.5', 'ISO duration parser: negating the parsed unsigned magnitude of a negative duration never overflows and never uses a wrapped value', floor=3)
     check_negation(prog, rep)
+    rep.rule('R15.6', 'datetime text -> time_point: with the parsed year ranging over int64 (month/day/time at their extremes) no signed operation '
+                      'of the civil-date arithmetic leaves its type (floor-division lemma x - floor(x/k)*k in [0,k-1] built in)', floor=1)
+    check_civil(prog, rep)
 
 
 # ------------------------------------------------------------------------------------------------ R15.2 SafeAddDuration (linear)
@@ -466,3 +469,45 @@ def check_negation(prog, rep):
             n_ok += 1
             rep.ok('R15.5', 'parseNextPart|negation|%s' % f.id[-60:], sample={'cells': [(c.lo, c.hi) for c, _ in cells][:6]})
     return n_ok
+
+
+# ------------------------------------------------------------------------------------------------ R15.6 civil date -> days arithmetic
+def check_civil(prog, rep):
+    fs = [f for f in prog.funcs.values() if f.name == 'To' and f.body is not None and f.relfile.endswith('convert_chrono.h')
+          and any(n['k'] == 'CallExpr' and (f.callee(n) or {}).get('n') == 'ParseIsoUtc' for n in f.walk())
+          and any(n['k'] == 'DeclStmt' and any(x.get('cv') == 146097 for x in f.walk(n)) for n in f.walk())]
+    if not fs:
+        raise AnalysisBroken('anchor vanished: To(string_view, time_point&) with the civil->days arithmetic')
+    for f in sorted(fs, key=lambda g: g.id)[:1]:
+        rep.touch(f)
+        short = re.sub(r'std::chrono::(_V2::)?', '', f.id.split('|')[0].replace('BitSerializer::Convert::Detail::', ''))[:110]
+        bad = set()
+        n_cells = 0
+        for (mo, dy, hh, mi, ss) in ((1, 1, 0, 0, 0), (12, 31, 23, 59, 59)):
+            def setup(it, fr, cell):
+                for p in f.params:
+                    fr.env[p['d']] = TOP
+
+            def hook(model, it, fr, n, callee, depth):
+                if callee['n'] == 'ParseIsoUtc':
+                    st = Struct()
+                    st.fields.update({'Year': model.cell, 'Month': mo, 'Day': dy, 'Hour': hh, 'Min': mi, 'Sec': ss, 'SecFractions': TOP})
+                    return st
+                return NotImplemented
+            cells = nowrap.explore(prog, f, -(1 << 63), (1 << 63) - 1, setup, hook, max_depth=0)
+            n_cells += len(cells)
+            for cell, paths in cells:
+                for p in paths:
+                    for a in p.actions:
+                        if a[0] == 'OVERFLOW':
+                            bad.add((a[2], '%s leaves %s for years in [%d, %d] (month %d)' % (a[1], a[3], cell.lo, cell.hi, mo)))
+        if bad:
+            seen_w = set()
+            for where, msg in sorted(bad):
+                if where in seen_w:
+                    continue
+                seen_w.add(where)
+                rep.finding('R15.6', 'To(time_point)|signed overflow at %s' % where.split(':')[-1], where,
+                            '%s: %s - undefined behaviour before the range guard' % (short, msg), func=f.id)
+        else:
+            rep.ok('R15.6', short, sample={'function': short, 'cells': n_cells})
